@@ -92,12 +92,13 @@ def matchesListItem (line : Bytes) (strict : Bool) : M6 × ListTyp :=
   let r := parseListItem line
   if r.2 != .notList && (!strict || r.1.r1 < 4) then r else (r.1, .notList)
 
-/-- parser.calcListOffset (list.go:95-106) -/
-def calcListOffset (source : Bytes) (m : M6) : Except Panic Int := do
+/-- parser.calcListOffset (list.go:91-103); `lineOffset` = the column at which `source` starts (since 3fb40b2 tab
+    stops are counted from the start of the line, not from the start of the peeked remainder) -/
+def calcListOffset (source : Bytes) (m : M6) (lineOffset : Int) : Except Panic Int := do
   if m.r4 < 0 then return 1
   let tail ← sliceFrom source m.r4
   if isBlank tail then return 1
-  let w := (indentWidthI tail m.r4).1
+  let w := (indentWidthI tail (lineOffset + m.r4)).1
   return (if w > 4 then 1 else w)
 
 /-- parser.lastOffset (list.go:108-114) on a non-nil node -/
@@ -239,11 +240,12 @@ def listItemOpen (parent : Nat) : M (Option Nat × PState) := do
   if typ == .notList then return (none, stNoChildren)
   if m.r1 - offset > 3 then return (none, stNoChildren)
   modPc fun pc => { pc with emptyItemBlank := false }
-  let itemOffset ← liftE (calcListOffset line m)
+  let lineOff ← lineOffset
+  let itemOffset ← liftE (calcListOffset line m lineOff)
   let node ← newNode { kind := .listItem, offset := m.r3 + itemOffset }
   if m.r4 < 0 then return (some node, stNoChildren)
   if isBlank (← liftE (slice line m.r4 m.r5)) then return (some node, stNoChildren)
-  let (pos, padding) := indentPosition (← liftE (sliceFrom line m.r4)) m.r4 itemOffset
+  let (pos, padding) := indentPosition (← liftE (sliceFrom line m.r4)) (lineOff + m.r4) itemOffset
   let child := m.r3 + pos
   advanceAndSetPadding child padding
   return (some node, stHasChildren)
